@@ -36,7 +36,16 @@ Siblings ==
     <<E(Node("call", "", <<Id("g"), FnE(<<E(A)>>)>>)), If(A, Blk(<<Blk(<<E(B)>>)>>), Nil), E(C)>>,
     <<Blk(<<Blk(<<E(B)>>)>>), Node("fdecl", "", <<Id("f"), PList(<<>>), Blk(<<E(A)>>)>>), Blk(<<Blk(<<E(C)>>)>>)>>,
     <<Let("x", FnE(<<Blk(<<E(A)>>)>>)), Blk(<<Blk(<<Blk(<<E(B)>>)>>)>>)>> }
-BaseProgs == Siblings \cup {<<s>> : s \in Templates} \cup {<<E(x)>> : x \in UNION {Spines(k) : k \in 1..SpineDepth}}
+\* a function expression / object literal as an OPERAND parsed above the lowest level, with operators
+\* of equal or lower level behind it (what the parser does while inside the operand must not leak)
+FnOperands ==
+  { <<Let("x", Bin("-", Bin("*", B, FnE(<<Ret(A)>>)), C))>>,
+    <<E(Bin("-", Bin("-", A, Node("call", "", <<FnE(<<E(B)>>)>>)), C))>>,
+    <<E(Bin("&&", Node("un", "!", <<Node("call", "", <<FnE(<<>>)>>)>>), B))>>,
+    <<Let("x", Bin("+", Bin("*", A, Node("call", "", <<Id("g"), FnE(<<Ret(A)>>)>>)), B))>>,
+    <<E(Node("asg", "=", <<A, Bin("+", Bin("*", B, Node("mem", "", <<Node("obj", "", <<Id("k"), FnE(<<Blk(<<E(A)>>)>>)>>), Id("k")>>)), C)>>))>>,
+    <<E(Bin("<", Bin("+", A, Node("idx", "", <<Node("arr", "", <<FnE(<<If(A, Blk(<<E(B)>>), Nil)>>)>>), Num("0")>>)), B))>> }
+BaseProgs == Siblings \cup FnOperands \cup {<<s>> : s \in Templates} \cup {<<E(x)>> : x \in UNION {Spines(k) : k \in 1..SpineDepth}}
                                       \cup {<<Let("x", x)>> : x \in UNION {Spines(k) : k \in 1..SpineDepth}}
 
 Init == inst \in Insts(MaxInst) /\ prog \in (IF NestableOnly THEN {<<E(A)>>} ELSE {q \in BaseProgs : TopOK(q)}) /\ nest = 0
